@@ -615,6 +615,24 @@ class RecipeRun:
         W = self.W
         k = c['c']
         if k == 'fill_to':
+            if self.had_fill or self.noise_rel > 0 or self.abs_noise:
+                # a fill adds (target - current total): whatever deviation the vessel's *total* carries from upstream (a doubled
+                # fill_to earlier, ratios taken from its result) lands, one to one, in the amount of filler added - however
+                # small that amount is next to the total
+                try:
+                    value, unit = M.parse_quantity(c['q'])
+                    ksolv = W.msubs[c['solvent']].per_amount(unit)
+                    o = cur.get(c['tgt'][0])
+                    m = self.model_of(o) if o is not None else None
+                    if m is not None and ksolv > 0:
+                        vessels = [m] if isinstance(m, M.MVessel) else [m.well(cell) for cell in m.all_cells()]
+                        worst = F(0)
+                        for v in vessels:
+                            tot = sum((self.noise_amt(n) * W.msubs[n].per_amount(unit) for n, a in v.contents.items() if a > 0), F(0))
+                            worst = max(worst, tot)
+                        self.abs_noise[c['solvent']] = self.abs_noise.get(c['solvent'], F(0)) + 2 * worst / ksolv
+                except (M.ModelError, KeyError, ValueError, ZeroDivisionError):
+                    pass
             self.had_fill = True
             return
         if k == 'dilute' and (self.had_fill or self.noise_rel > 0):
